@@ -7,10 +7,10 @@ namespace Bermuda.HeapIR
 open Bermuda.Heap
 
 section
-variable {n0 : Nat} {rc : Cls}
+variable {n0 : Nat} {W : Loc → Prop} {rc : Cls}
 
-theorem post_of_eq {tr : Bool} {τ : Typing} {h0 : Heap} {r r' : ARes} {out : Out} (h : Post n0 rc tr τ h0 r out)
-    (hn : r'.norm = r.norm) (he : r'.exc = r.exc) (hb : r'.brk = r.brk) : Post n0 rc tr τ h0 r' out := by
+theorem post_of_eq {tr : Bool} {τ : Typing} {h0 : Heap} {r r' : ARes} {out : Out} (h : Post n0 W rc tr τ h0 r out)
+    (hn : r'.norm = r.norm) (he : r'.exc = r.exc) (hb : r'.brk = r.brk) : Post n0 W rc tr τ h0 r' out := by
   obtain ⟨τ', l, t, p, c⟩ := h
   refine ⟨τ', l, t, p, ?_⟩
   cases out with
@@ -19,24 +19,24 @@ theorem post_of_eq {tr : Bool} {τ : Typing} {h0 : Heap} {r r' : ARes} {out : Ou
   | brk s => rw [hb]; exact c
   | ret v s => exact c
 
-theorem exec_sound {sums : List Cls} {cs : CallSem} (hcs : GoodCalls sums cs) (s : Stmt) :
-    ∀ (tr : Bool) (a : AEnv) (st : St) (τ : Typing), (absExec sums rc tr s a).ok = true → Typed n0 τ st.heap →
+theorem exec_sound {sums : List Summary} {cs : CallSem} (hcs : GoodCalls sums cs) (s : Stmt) :
+    ∀ (tr : Bool) (a : AEnv) (st : St) (τ : Typing), (absExec sums rc tr s a).ok = true → Typed n0 W τ st.heap →
       n0 ≤ st.heap.size → SatEnv τ a st.env →
-      Post n0 rc tr τ st.heap (absExec sums rc tr s a) (exec cs s st) := by
+      Post n0 W rc tr τ st.heap (absExec sums rc tr s a) (exec cs s st) := by
   induction s with
   | skip =>
     intro tr a st τ _ ht hn he
-    exact post_norm (Typing.le_refl τ) ht (Preserves.refl hn) he
+    exact post_norm (Typing.le_refl τ) ht (PreservesW.refl hn) he
   | alloc x t al =>
     intro tr a st τ hok ht hn he
     exact execAlloc_sound ht hn he x t al hok
   | bind x y =>
     intro tr a st τ _ ht hn he
-    exact post_norm (Typing.le_refl τ) ht (Preserves.refl hn) (he.set x (he y))
+    exact post_norm (Typing.le_refl τ) ht (PreservesW.refl hn) (he.set x (he y))
   | const x =>
     intro tr a st τ _ ht hn he
     simp only [exec, execConst, absExec]
-    refine post_norm (Typing.le_refl τ) ht (Preserves.refl hn) (he.set x ?_)
+    refine post_norm (Typing.le_refl τ) ht (PreservesW.refl hn) (he.set x ?_)
     intro l
     split <;> simp
   | arith x =>
@@ -44,7 +44,7 @@ theorem exec_sound {sums : List Cls} {cs : CallSem} (hcs : GoodCalls sums cs) (s
     exact execArith_sound ht hn he x
   | havoc x =>
     intro tr a st τ _ ht hn he
-    exact post_norm (Typing.le_refl τ) ht (Preserves.refl hn) (he.set x trivial)
+    exact post_norm (Typing.le_refl τ) ht (PreservesW.refl hn) (he.set x trivial)
   | load x y k =>
     intro tr a st τ _ ht hn he
     exact execLoad_sound ht hn he x y k
@@ -64,12 +64,13 @@ theorem exec_sound {sums : List Cls} {cs : CallSem} (hcs : GoodCalls sums cs) (s
     cases hx : a.get x with
     | scalar => exact execAug_scalar ht hn he x v hx
     | lv t =>
-      simp only [hx] at hok ⊢
-      exact execAug_lv ht hn he x v hx hok
+      simp only [hx, prim, Bool.and_eq_true, Bool.not_eq_true'] at hok
+      simp only [hx]
+      exact execAug_lv ht hn he x v hx hok.1 (by intro hc; rw [hc] at hok; simp [Lvl.isExt] at hok)
     | any => simp [hx, prim] at hok
   | call x f args =>
-    intro tr a st τ _ ht hn he
-    exact execCall_sound hcs ht hn he x f args
+    intro tr a st τ hok ht hn he
+    exact execCall_sound hcs ht hn he x f args hok
   | unknown args =>
     intro tr a st τ hok ht hn he
     exact execUnknown_sound ht hn he args hok
@@ -157,7 +158,7 @@ theorem exec_sound {sums : List Cls} {cs : CallSem} (hcs : GoodCalls sums cs) (s
       exact ⟨τ', l, t', pr, c⟩
   | brk =>
     intro tr a st τ _ ht hn he
-    exact ⟨τ, Typing.le_refl τ, ht, Preserves.refl hn, a, rfl, he⟩
+    exact ⟨τ, Typing.le_refl τ, ht, PreservesW.refl hn, a, rfl, he⟩
   | «try» s t ihs iht =>
     intro tr a st τ hok ht hn he
     simp only [absExec] at hok ⊢
@@ -216,139 +217,188 @@ theorem exec_sound {sums : List Cls} {cs : CallSem} (hcs : GoodCalls sums cs) (s
         exact ⟨τ', l, t', pr, c⟩
   | ret x =>
     intro tr a st τ hok ht hn he
-    exact ⟨τ, Typing.le_refl τ, ht, Preserves.refl hn, (he x).of_le hok⟩
+    exact ⟨τ, Typing.le_refl τ, ht, PreservesW.refl hn, (he x).of_le hok⟩
   | raise =>
     intro tr a st τ _ ht hn he
-    exact ⟨τ, Typing.le_refl τ, ht, Preserves.refl hn, fun h => ⟨a, by simp [absExec, h], he⟩⟩
+    exact ⟨τ, Typing.le_refl τ, ht, PreservesW.refl hn, fun h => ⟨a, by simp [absExec, h], he⟩⟩
 
 end
 
 /-! ### functions and programs -/
 
-/-- the empty typing: nothing allocated yet -/
-def Typing.empty : Typing := fun _ => none
+open Classical in
+/-- the typing a call starts with: nothing allocated yet, the objects of the unprotected arguments are `ext` -/
+noncomputable def Typing.entry (V : Loc → Prop) : Typing := fun l => if V l then some .ext else none
 
-theorem Typed.empty (n0 : Nat) (h : Heap) : Typed n0 Typing.empty h :=
-  { bound := fun _ _ hl => by simp [Typing.empty] at hl
-    isArr := fun _ hl => by simp [Typing.empty] at hl
-    entries := fun _ _ _ hl => by simp [Typing.empty] at hl }
+theorem Typing.entry_some {V : Loc → Prop} {l : Loc} {t : Lvl} (h : Typing.entry V l = some t) : t = .ext ∧ V l := by
+  unfold Typing.entry at h
+  split at h
+  · exact ⟨(Option.some.inj h).symm, by assumption⟩
+  · cases h
 
-theorem entryEnv_sat (params : List Var) (args : List Ref) :
-    SatEnv Typing.empty (entryEnv params)
-      ((params.zip args).foldl (fun e pa => setPad Ref.none e pa.1 pa.2) []) := by
-  suffices ∀ (a : AEnv) (env : List Ref), SatEnv Typing.empty a env →
-      SatEnv Typing.empty (params.foldl (fun a p => a.set p .any) a)
-        ((params.zip args).foldl (fun e pa => setPad Ref.none e pa.1 pa.2) env) by
-    refine this [] [] ?_
-    intro x
-    simp only [AEnv.get, List.getD_nil]
-    exact SatCls.nonloc _ (by simp)
-  induction params generalizing args with
-  | nil => intro a env h; simpa using h
+theorem Typing.entry_of {V : Loc → Prop} {l : Loc} (h : V l) : Typing.entry V l = some .ext := by
+  unfold Typing.entry
+  rw [if_pos h]
+
+theorem Typed.entry (n0 : Nat) {V : Loc → Prop} (h : Heap) (hV : ∀ l, V l → l < h.size) :
+    Typed n0 V (Typing.entry V) h :=
+  { bound := fun l t hl => by
+      obtain ⟨rfl, hv⟩ := Typing.entry_some hl
+      exact ⟨hV l hv, fun hc => absurd rfl hc⟩
+    extW := fun l hl => (Typing.entry_some hl).2
+    isArr := fun l hl => by have := (Typing.entry_some hl).1; cases this
+    entries := fun l t es hl _ e _ => by
+      obtain ⟨rfl, _⟩ := Typing.entry_some hl
+      simp [EntryOK, Lvl.elem] }
+
+theorem entryEnvAux_sat (τ : Typing) (wp : List Nat) (params : List Var) :
+    ∀ (i : Nat) (args : List Ref) (a : AEnv) (env : List Ref), SatEnv τ a env →
+      (∀ j l, args[j]? = some (.loc l) → (i + j) ∈ wp → τ l = some .ext) →
+      SatEnv τ (entryEnvAux wp i params a) (bindParams params args env) := by
+  induction params with
+  | nil => intro i args a env h _; simpa [entryEnvAux, bindParams] using h
   | cons p ps ih =>
-    intro a env h
+    intro i args a env h hw
     cases args with
     | nil =>
-      simp only [List.zip_nil_right, List.foldl_nil, List.foldl_cons]
-      -- no argument left: the remaining parameters stay unbound, which `any` covers as well
-      have : ∀ (ps : List Var) (a : AEnv), SatEnv Typing.empty a env →
-          SatEnv Typing.empty (ps.foldl (fun a p => a.set p .any) a) env := by
-        intro ps
-        induction ps with
-        | nil => intro a h; exact h
-        | cons q qs ihq =>
-          intro a h
-          simp only [List.foldl_cons]
-          apply ihq
-          intro y
-          simp only [AEnv.get, AEnv.set, getD_setPad]
-          split
-          · trivial
-          · exact h y
-      apply this ps
-      intro y
-      simp only [AEnv.get, AEnv.set, getD_setPad]
-      split
-      · trivial
-      · exact h y
+      simp only [entryEnvAux, bindParams]
+      refine ih (i + 1) [] _ _ (h.set p (SatCls.nonloc _ (by simp))) ?_
+      intro j l hj
+      simp at hj
     | cons r rs =>
-      simp only [List.zip_cons_cons, List.foldl_cons]
-      exact ih rs _ _ (h.set p trivial)
+      simp only [entryEnvAux, bindParams]
+      refine ih (i + 1) rs _ _ (h.set p ?_) ?_
+      · split
+        · rename_i hmem
+          intro l hl
+          subst hl
+          have := hw 0 l (by simp) (by simpa using hmem)
+          exact ⟨.ext, this, Lvl.sub_refl _⟩
+        · trivial
+      · intro j l hj hmem
+        exact hw (j + 1) l (by simpa using hj) (by rw [← Nat.add_assoc, Nat.add_right_comm]; exact hmem)
 
-/-- a caller's typing `τ` (locations `< h.size`) and a callee's typing `τc` (locations `≥ h.size`)
-side by side -/
+theorem entryEnv_sat (τ : Typing) (f : Fn) (args : List Ref)
+    (hw : ∀ l, callW f.wparams args l → τ l = some .ext) :
+    SatEnv τ (entryEnv f.params f.wparams) (bindParams f.params args []) := by
+  refine entryEnvAux_sat τ f.wparams f.params 0 args [] [] ?_ ?_
+  · intro x
+    simp only [AEnv.get, List.getD_nil]
+    exact SatCls.nonloc _ (by simp)
+  · intro j l hj hmem
+    exact hw l ⟨j, by simpa using hmem, hj⟩
+
+/-- a caller's typing `τ` (locations `< n`) and a callee's typing `τc` (locations `≥ n`) side by side -/
 def Typing.glue (τ τc : Typing) (n : Nat) : Typing := fun l => if l < n then τ l else τc l
 
-theorem runFn_good {sums : List Cls} {cs : CallSem} (hcs : GoodCalls sums cs) (f : Fn)
-    (hf : writesOnlyFresh sums f = true) (args : List Ref) (h : Heap) (o : Oracle) (n : Nat) (τ : Typing)
-    (ht : Typed n τ h) (hn : n ≤ h.size) :
-    ∃ τ' : Typing, τ.le τ' ∧ Typed n τ' (runFn cs f args h o).1 ∧ Preserves h.size h (runFn cs f args h o).1 ∧
+theorem Lvl.elem_ne_ext {t t' : Lvl} (h : t.elem = some t') : t' ≠ .ext := by
+  intro hc
+  subst hc
+  cases t with
+  | sh k => cases k <;> simp [Lvl.elem] at h
+  | deep => simp [Lvl.elem] at h
+  | num => simp [Lvl.elem] at h
+  | nums => simp [Lvl.elem] at h
+  | ext => simp [Lvl.elem] at h
+
+theorem runFn_good {sums : List Summary} {cs : CallSem} (hcs : GoodCalls sums cs) (f : Fn)
+    (hf : writesOnlyFresh sums f = true) (args : List Ref) (h : Heap) (o : Oracle) (n : Nat) (W : Loc → Prop)
+    (τ : Typing) (ht : Typed n W τ h) (hn : n ≤ h.size)
+    (hext : ∀ l, callW f.wparams args l → ∃ t, τ l = some t ∧ t.elem = none) :
+    ∃ τ' : Typing, τ.le τ' ∧ Typed n W τ' (runFn cs f args h o).1 ∧
+      PreservesW h.size (callW f.wparams args) h (runFn cs f args h o).1 ∧
       ∀ v, (runFn cs f args h o).2.1 = .ok v → SatCls τ' f.retCls v := by
-  have p := exec_sound (n0 := h.size) (rc := f.retCls) hcs f.body false (entryEnv f.params)
-    ⟨(f.params.zip args).foldl (fun e pa => setPad Ref.none e pa.1 pa.2) [], h, o⟩ Typing.empty hf
-    (Typed.empty _ _) (Nat.le_refl _) (entryEnv_sat f.params args)
+  simp only [writesOnlyFresh, Bool.and_eq_true, Bool.not_eq_true'] at hf
+  obtain ⟨hf, hret⟩ := hf
+  have hV : ∀ l, callW f.wparams args l → l < h.size := fun l hl => by
+    obtain ⟨t, h1, _⟩ := hext l hl
+    exact (ht.bound l t h1).1
+  have p := exec_sound (n0 := h.size) (W := callW f.wparams args) (rc := f.retCls) hcs f.body false
+    (entryEnv f.params f.wparams) ⟨bindParams f.params args [], h, o⟩ (Typing.entry (callW f.wparams args)) hf
+    (Typed.entry _ h hV) (Nat.le_refl _)
+    (entryEnv_sat _ f args (fun l hl => Typing.entry_of hl))
   obtain ⟨τc, _, tc, pc, cc⟩ := p
-  -- glue the two typings
-  have hglue : ∀ (h' : Heap), Typed h.size τc h' → Preserves h.size h h' →
-      τ.le (Typing.glue τ τc h.size) ∧ Typed n (Typing.glue τ τc h.size) h' := by
-    intro h' tc pc
-    have hle : τ.le (Typing.glue τ τc h.size) := by
-      intro l t hl
-      have := (ht.bound l t hl).2
-      simp only [Typing.glue, this, if_true]
-      exact hl
-    have hle2 : ∀ {c : Cls} {r : Ref}, SatCls τc c r → SatCls (Typing.glue τ τc h.size) c r := by
-      intro c r hs
-      cases c with
-      | scalar => exact hs
-      | any => trivial
-      | lv t =>
-        intro l hl
-        obtain ⟨t', h1, h2⟩ := hs l hl
-        have := (tc.bound l t' h1).1
-        exact ⟨t', by simp only [Typing.glue]; rw [if_neg (Nat.not_lt.mpr this)]; exact h1, h2⟩
-    refine ⟨hle, ?_, ?_, ?_⟩
-    · intro l t hl
-      simp only [Typing.glue] at hl
-      split at hl
-      · have := ht.bound l t hl
-        exact ⟨this.1, Nat.lt_of_lt_of_le this.2 pc.1⟩
-      · have := tc.bound l t hl
-        exact ⟨Nat.le_trans hn this.1, this.2⟩
-    · intro l hl
-      simp only [Typing.glue] at hl
-      split at hl
-      · rename_i hlt
-        obtain ⟨d, hd⟩ := ht.isArr l hl
-        exact ⟨d, by rw [pc.2 l hlt]; exact hd⟩
-      · exact tc.isArr l hl
-    · intro l t es hl hg e he
-      simp only [Typing.glue] at hl
-      split at hl
-      · rename_i hlt
-        rw [pc.2 l hlt] at hg
-        exact (ht.entries l t es hl hg e he).mono hle
-      · have := tc.entries l t es hl hg e he
-        unfold EntryOK at this ⊢
-        split
-        · trivial
-        · rename_i t' heq
-          rw [heq] at this
-          exact hle2 this
-  have hsat : ∀ {c : Cls} {r : Ref}, SatCls τc c r → ∀ h', Typed h.size τc h' →
-      SatCls (Typing.glue τ τc h.size) c r := by
-    intro c r hs h' tc
+  -- callee-typed references (of a class other than `lv ext`) keep their class under the glued typing
+  have hsat : ∀ (h' : Heap), Typed h.size (callW f.wparams args) τc h' → ∀ {c : Cls} {r : Ref},
+      c.isExt = false → SatCls τc c r → SatCls (Typing.glue τ τc h.size) c r := by
+    intro h' tc c r hc hs
     cases c with
     | scalar => exact hs
     | any => trivial
     | lv t =>
       intro l hl
       obtain ⟨t', h1, h2⟩ := hs l hl
-      have := (tc.bound l t' h1).1
-      exact ⟨t', by simp only [Typing.glue]; rw [if_neg (Nat.not_lt.mpr this)]; exact h1, h2⟩
+      refine ⟨t', ?_, h2⟩
+      simp only [Typing.glue]
+      split
+      · rename_i hlt
+        have hte : t' = .ext := by
+          by_cases hx : t' = .ext
+          · exact hx
+          · exact absurd hlt (Nat.not_lt.mpr ((tc.bound l t' h1).2 hx))
+        subst hte
+        have : t = .ext := by
+          rw [Lvl.sub_iff] at h2
+          rcases h2 with h3 | ⟨h3, _⟩
+          · exact h3.symm
+          · cases h3
+        subst this
+        simp [Cls.isExt] at hc
+      · exact h1
+  have hglue : ∀ (h' : Heap), Typed h.size (callW f.wparams args) τc h' →
+      PreservesW h.size (callW f.wparams args) h h' →
+      τ.le (Typing.glue τ τc h.size) ∧ Typed n W (Typing.glue τ τc h.size) h' := by
+    intro h' tc pc
+    have hle : τ.le (Typing.glue τ τc h.size) := by
+      intro l t hl
+      have := (ht.bound l t hl).1
+      simp only [Typing.glue, this, if_true]
+      exact hl
+    refine ⟨hle, ?_, ?_, ?_, ?_⟩
+    · intro l t hl
+      simp only [Typing.glue] at hl
+      split at hl
+      · have := ht.bound l t hl
+        exact ⟨Nat.lt_of_lt_of_le this.1 pc.1, this.2⟩
+      · rename_i hge
+        have := tc.bound l t hl
+        exact ⟨this.1, fun _ => Nat.le_trans hn (Nat.not_lt.mp hge)⟩
+    · intro l hl
+      simp only [Typing.glue] at hl
+      split at hl
+      · exact ht.extW l hl
+      · rename_i hge
+        exact absurd (hV l (tc.extW l hl)) hge
+    · intro l hl
+      simp only [Typing.glue] at hl
+      split at hl
+      · rename_i hlt
+        obtain ⟨d, hd⟩ := ht.isArr l hl
+        exact pc.2.2 l d hlt hd
+      · exact tc.isArr l hl
+    · intro l t es hl hg e he
+      simp only [Typing.glue] at hl
+      split at hl
+      · rename_i hlt
+        by_cases hw : callW f.wparams args l
+        · obtain ⟨t0, h1, h2⟩ := hext l hw
+          rw [hl] at h1
+          cases h1
+          simp [EntryOK, h2]
+        · rw [pc.2.1 l hlt hw] at hg
+          exact (ht.entries l t es hl hg e he).mono hle
+      · have := tc.entries l t es hl hg e he
+        unfold EntryOK at this ⊢
+        split
+        · trivial
+        · rename_i t' heq
+          rw [heq] at this
+          refine hsat h' tc ?_ this
+          have := Lvl.elem_ne_ext heq
+          cases t' <;> simp [Cls.isExt] at this ⊢
   refine ⟨Typing.glue τ τc h.size, ?_⟩
   simp only [runFn]
-  cases hout : exec cs f.body ⟨(f.params.zip args).foldl (fun e pa => setPad Ref.none e pa.1 pa.2) [], h, o⟩ with
+  cases hout : exec cs f.body ⟨bindParams f.params args [], h, o⟩ with
   | norm st =>
     rw [hout] at tc pc
     obtain ⟨g1, g2⟩ := hglue _ tc pc
@@ -375,31 +425,32 @@ theorem runFn_good {sums : List Cls} {cs : CallSem} (hcs : GoodCalls sums cs) (f
     refine ⟨g1, g2, pc, ?_⟩
     intro v hv
     cases hv
-    exact hsat cc _ tc
+    exact hsat _ tc hret cc
+
+theorem summaries_getD (P : List Fn) (f : Nat) (fn : Fn) (hf : P[f]? = some fn) :
+    (summaries P).getD f (.any, []) = (fn.retCls, fn.wparams) := by
+  simp only [summaries, List.getD_eq_getElem?_getD, List.getElem?_map, hf, Option.map_some, Option.getD_some]
+
+theorem summaries_getD_none (P : List Fn) (f : Nat) (hf : P[f]? = none) :
+    (summaries P).getD f (.any, []) = (.any, []) := by
+  simp only [summaries, List.getD_eq_getElem?_getD, List.getElem?_map, hf, Option.map_none, Option.getD_none]
 
 /-- every function of a disciplined program is a good call, at every call depth -/
 theorem sem_good (P : List Fn) (hP : disciplined P = true) (d : Nat) : GoodCalls (summaries P) (sem P d) := by
   induction d with
   | zero =>
-    intro f args h o n τ ht hn
-    exact ⟨τ, Typing.le_refl τ, ht, Preserves.refl (Nat.le_refl _), by intro v hv; cases hv⟩
+    intro f args h o n W τ ht hn _
+    exact ⟨τ, Typing.le_refl τ, ht, PreservesW.refl (Nat.le_refl _), by intro v hv; cases hv⟩
   | succ d ih =>
-    intro f args h o n τ ht hn
+    intro f args h o n W τ ht hn hext
     simp only [sem]
     cases hf : P[f]? with
-    | none => exact ⟨τ, Typing.le_refl τ, ht, Preserves.refl (Nat.le_refl _), by intro v hv; cases hv⟩
+    | none => exact ⟨τ, Typing.le_refl τ, ht, PreservesW.refl (Nat.le_refl _), by intro v hv; cases hv⟩
     | some fn =>
       simp only
       have hmem : fn ∈ P := List.mem_of_getElem? hf
-      have hdisc : writesOnlyFresh (summaries P) fn = true := by
-        have := List.all_eq_true.mp hP fn hmem
-        exact this
-      obtain ⟨τ', l1, t1, p1, s1⟩ := runFn_good ih fn hdisc args h o n τ ht hn
-      refine ⟨τ', l1, t1, p1, ?_⟩
-      intro v hv
-      have : (summaries P).getD f .any = fn.retCls := by
-        simp only [summaries, List.getD_eq_getElem?_getD, List.getElem?_map, hf, Option.map_some, Option.getD_some]
-      rw [this]
-      exact s1 v hv
+      have hdisc : writesOnlyFresh (summaries P) fn = true := List.all_eq_true.mp hP fn hmem
+      rw [summaries_getD P f fn hf] at hext ⊢
+      exact runFn_good ih fn hdisc args h o n W τ ht hn hext
 
 end Bermuda.HeapIR
